@@ -11,6 +11,7 @@ pub mod c07;
 pub mod c08;
 pub mod c09;
 pub mod c10;
+pub mod c11;
 pub mod c12;
 pub mod c13;
 pub mod c14;
@@ -32,6 +33,7 @@ pub fn run(id: &str, thorough: bool) -> Option<Outcome> {
         "C08" => Some(c08::run(thorough)),
         "C09" => Some(c09::run(thorough)),
         "C10" => Some(c10::run(thorough)),
+        "C11" => Some(c11::run(thorough)),
         "C12" => Some(c12::run(thorough)),
         "C13" => Some(c13::run(thorough)),
         "C14" => Some(c14::run(thorough)),
@@ -56,6 +58,7 @@ pub fn replay(id: &str, ex: &Value) -> Option<Report> {
         "C08" => Some(c08::replay(ex)),
         "C09" => Some(c09::replay(ex)),
         "C10" => Some(c10::replay(ex)),
+        "C11" => Some(c11::replay(ex)),
         "C12" => Some(c12::replay(ex)),
         "C13" => Some(c13::replay(ex)),
         "C14" => Some(c14::replay(ex)),
